@@ -276,6 +276,56 @@ class Emit:
         return None
 
 
+
+
+def internal_item_names():
+    """names of the items (const / static / fn / type / struct) that konst's macros declare in
+    their expansions, READ FROM /repo's macro sources at run time (items are not hygienic in
+    macro_rules: a user item of the same name that the argument expression mentions must still
+    mean the user's item).  A fixed list is added so that the family never becomes empty."""
+    import kv
+    names = set(["LEN", "CONC", "STR", "CAP", "N", "ARR", "ARGS", "ITER", "ITEM", "RET", "MAKE", "MIN_VAL", "MAX_VAL", "T", "V"])
+    for root in ("konst/src", "konst_kernel/src"):
+        for dp, _dn, fn in os.walk(os.path.join(kv.REPO, root)):
+            for f in fn:
+                if not f.endswith(".rs"):
+                    continue
+                try:
+                    txt = open(os.path.join(dp, f), errors="replace").read()
+                except OSError:
+                    continue
+                if "macro_rules!" not in txt:
+                    continue
+                for m in re.finditer(r"^\s+(?:pub\s+)?(?:const|static)\s+([A-Za-z_][A-Za-z0-9_]*)\s*:", txt, re.M):
+                    names.add(m.group(1))
+    return sorted(n for n in names if re.match(r"^[A-Z][A-Z0-9_]*$", n) and n not in ("R", "S", "A", "SEP"))
+
+
+def renamed(body, mapping):
+    for old, new in mapping.items():
+        body = re.sub(r"\b%s\b" % old, new, body)
+    return body
+
+
+def name_collision_cases():
+    """every macro with an argument expression that mentions user constants whose names are the
+    names of the macros' own internal items"""
+    e = Emit()
+    for n in internal_item_names():
+        n2 = "LEN" if n != "LEN" else "CONC"
+        t = Emit()
+        t.concat("s", ["a", "é"], "cs")
+        t.concat("c", ["é", "x"], "ca")
+        t.join("s", "-_", ["a", "", "b"], "cs")
+        t.join("c", "é", ["x", "y"], "ca")
+        t.from_iter("s", ["ab", "é"], "const")
+        t.slice_concat("u8", [[1], [2, 3]], "cs")
+        t.slice_concat("i16", [[-1], [], [7, -300]], "ca")
+        for b in t.blocks:
+            e.add(renamed(b, {"S": n, "A": n + "_", "SEP": n2 if n2 != n else n + "__"}).replace('"cs ', '"cs ').replace(", \"n", ", \"n"))
+    return e
+
+
 FORMS = ["lit", "cs", "ca", "fn"]
 
 
@@ -479,6 +529,7 @@ def produce(tier, seed, release, out_path):
     # the seeded cases live in their own small bin: a new seed rebuilds only that
     emits["c20_macros_%s_rand" % t] = random_cases(int(seed), thorough)
     emits["c20_macros_%s_stress" % t] = stress_cases(thorough)
+    emits["c20_macros_%s_names" % t] = name_collision_cases()
     for attempt in range(6):
         common.make_crate(crate, {b: e.program() for b, e in emits.items()})
         ok, stderr = cargo_build(crate, release)
